@@ -22,7 +22,7 @@
    Generated/TimeoutsGen.v (helpers.TimeoutHandle.start, helpers.ceil_timeout,
    ResponseHandler._reschedule_timeout, ClientTimeout.__post_init__); the capacity test comes from
    Generated/PoolGen.v (BaseConnector._available_connections and its call-site comparisons). *)
-From AV Require Import Lib.Base Generated.TimeoutsGen Generated.PoolGen.
+From AV Require Import Lib.Base Generated.TimeoutsGen.
 Open Scope Z_scope.
 
 Definition task := N.
@@ -163,7 +163,7 @@ Definition to_connect (g : gcfg) (ts : tstate) (nw : Z) : tstate :=
 Definition to_headers (ts : tstate) (c : conn) (nw : Z) : tstate :=
   if c_block (cfg ts)
   then mkT (cfg ts) PHeaders (mkTm (d_total (tm ts)) None None None) (started ts) (sock_started ts)
-           (last_io ts) (Some c) true false None RHead
+           nw (Some c) true false None RHead
   else mkT (cfg ts) PHeaders (mkTm (d_total (tm ts)) None None (arm_read (cfg ts) nw)) (started ts)
            (sock_started ts) nw (Some c) false false None RHead.
 
